@@ -561,7 +561,7 @@ def run_check(a, prop, tier, seed, spec, scratch, t_start):
         "replay_files": replay_files,
         "rewriter": simprep_report.get("rules", {}),
         "uncontrolled_selects": simprep_report.get("unhandled") or [],
-        "real_components": "every non-test file of /repo's working tree, rewritten only by rules R1-R7 (net->simnet, sync->simsync, sync/atomic->simatomic, go/chan/select/map-range/time.Sleep -> kernel traps, channel capacities through a world knob)",
+        "real_components": "every non-test file of /repo's working tree, rewritten only by rules R1-R8 (net->simnet, sync->simsync, sync/atomic->simatomic, go/chan/select/map-range/time.Sleep -> kernel traps, channel capacities through a world knob)",
         "stub_components": "package net (UDP, TCP, DNS), sync primitives (kernel objects; sync.Map, sync.Pool and atomics = the real operation behind a scheduling point, Pool/Range choices from the tape), goroutine scheduling, select choice, map iteration order, clock (testing/synctest), UUID entropy, user agents, backends, DNS server",
         "build_s": round(build_s, 1),
         "explore_s": round(explore_s, 1),
